@@ -5,8 +5,11 @@ requested paths either sequentially (`markAll`: every key walks from the root) o
 of its first nibble, `markKids`).
   * `markToCollect_routing_cons`   : one step of the sequential walk at a branch root;
   * `markAll_routing`              : the sequential loop at a branch root in terms of `markKids`;
-  * `mark_parallel_eq_sequential`  : both strategies report the same error, and when they succeed on a non-empty list
-                                     of keys they produce the same node;
+  * `mark_parallel_eq_sequential`  : for non-empty keys both strategies report the same error, and when they succeed on
+                                     a non-empty list of keys they produce the same node (an EMPTY key is marked at
+                                     the branch root by the sequential walk, while the per-branch loop, which takes
+                                     `k[0]`, panics: hence the hypothesis `∀ k ∈ keys, k ≠ []`; the keys of GetPath
+                                     are 32-byte keys, 64 nibbles);
   * `markRoot_eq_markAll`          : the same for the choice `getPath` makes (`markRoot`);
   * `getPath_strategy_irrelevant`  : `getPath` against `getPathSeq` (= `getPath` with `markAll` in both branches);
   * `markKids_comm`                : keys with different first nibbles commute (the goroutines of the Go code touch
@@ -36,15 +39,16 @@ theorem markToCollect_routing_cons (hasDb : Bool) (s : Store) (h : Bytes) (ch : 
 
 theorem markToCollect_routing_nil (hasDb : Bool) (s : Store) (h : Bytes) (ch : Nib → WN) (w : Nat) (d tc : Bool) :
     markToCollect hasDb s (fuelFor []) (.routing h ch w d tc) [] =
-      { node := .routing h ch w d tc, err := some .panic } := by
+      { node := .routing h ch w d true } := by
   simp [fuelFor, markToCollect]
 
 /-! ### the sequential loop at a branch root -/
 
-/-- the sequential loop at a branch root, in terms of the per-branch loop: same error; on success the children are those
-of `markKids` and the root carries the mark as soon as there was a key -/
+/-- the sequential loop at a branch root, in terms of the per-branch loop, for non-empty keys: same error; on success the
+children are those of `markKids` and the root carries the mark as soon as there was a key.  (An empty key is marked at
+the root by the sequential walk and makes the per-branch loop panic.) -/
 theorem markAll_routing (hasDb : Bool) (s : Store) (h : Bytes) (w : Nat) (d : Bool) :
-    ∀ (keys : List (List Nib)) (ch : Nib → WN) (tc : Bool),
+    ∀ (keys : List (List Nib)) (ch : Nib → WN) (tc : Bool), (∀ k ∈ keys, k ≠ []) →
     (markAll hasDb s (.routing h ch w d tc) keys).err = (markKids hasDb s ch keys).2 ∧
     ((markAll hasDb s (.routing h ch w d tc) keys).err = none →
       (markAll hasDb s (.routing h ch w d tc) keys).node =
@@ -52,34 +56,35 @@ theorem markAll_routing (hasDb : Bool) (s : Store) (h : Bytes) (w : Nat) (d : Bo
   intro keys
   induction keys with
   | nil =>
-    intro ch tc
+    intro ch tc _
     simp [markAll, markKids]
   | cons key rest ih =>
-    intro ch tc
+    intro ch tc hne
+    have hne' : ∀ k ∈ rest, k ≠ [] := fun x hx => hne x (List.mem_cons_of_mem _ hx)
     cases key with
-    | nil =>
-      simp [markAll, markKids, markToCollect_routing_nil]
+    | nil => exact absurd rfl (hne [] List.mem_cons_self)
     | cons k ks =>
       simp only [markAll, markKids, markToCollect_routing_cons]
       cases hr : (markToCollect hasDb s (fuelFor (k :: ks) - 1) (ch k) ks).err with
       | some e => simp
       | none =>
         simp only
-        obtain ⟨i1, i2⟩ := ih (upd ch k (markToCollect hasDb s (fuelFor (k :: ks) - 1) (ch k) ks).node) true
+        obtain ⟨i1, i2⟩ := ih (upd ch k (markToCollect hasDb s (fuelFor (k :: ks) - 1) (ch k) ks).node) true hne'
         refine ⟨i1, fun he => ?_⟩
         rw [i2 he]
         simp
 
-/-- the two collection strategies of `GetPath` below a branch root: they report the same error, and when the marking
-succeeds for at least one key they yield the same node.  (For `keys = []` the sequential strategy leaves the root
-mark alone while the parallel one sets it; `GetPath` takes the parallel strategy for more than
-`pathParallelThreshold` keys only.) -/
+/-- the two collection strategies of `GetPath` below a branch root, for non-empty keys: they report the same error, and
+when the marking succeeds for at least one key they yield the same node.  (For `keys = []` the sequential strategy
+leaves the root mark alone while the parallel one sets it; `GetPath` takes the parallel strategy for more than
+`pathParallelThreshold` keys only.  An empty key is marked at the root by the sequential strategy, the parallel one
+panics on it.) -/
 theorem mark_parallel_eq_sequential (hasDb : Bool) (s : Store) (h : Bytes) (ch : Nib → WN) (w : Nat) (d tc : Bool)
-    (keys : List (List Nib)) :
+    (keys : List (List Nib)) (hne : ∀ k ∈ keys, k ≠ []) :
     (markParallel hasDb s (.routing h ch w d tc) keys).err = (markAll hasDb s (.routing h ch w d tc) keys).err ∧
     ((markAll hasDb s (.routing h ch w d tc) keys).err = none → keys ≠ [] →
       (markParallel hasDb s (.routing h ch w d tc) keys).node = (markAll hasDb s (.routing h ch w d tc) keys).node) := by
-  obtain ⟨h1, h2⟩ := markAll_routing hasDb s h w d keys ch tc
+  obtain ⟨h1, h2⟩ := markAll_routing hasDb s h w d keys ch tc hne
   refine ⟨h1.symm, fun he hk => ?_⟩
   rw [h2 he]
   cases keys with
@@ -94,7 +99,8 @@ def markRoot (hasDb : Bool) (s : Store) (root : WN) (keys : List (List Nib)) : M
   if root.isRouting && keys.length > Verif.Gen.Constants.pathParallelThreshold
     then markParallel hasDb s root keys else markAll hasDb s root keys
 
-theorem markRoot_eq_markAll (hasDb : Bool) (s : Store) (root : WN) (keys : List (List Nib)) :
+theorem markRoot_eq_markAll (hasDb : Bool) (s : Store) (root : WN) (keys : List (List Nib))
+    (hne : ∀ k ∈ keys, k ≠ []) :
     (markRoot hasDb s root keys).err = (markAll hasDb s root keys).err ∧
     ((markAll hasDb s root keys).err = none → (markRoot hasDb s root keys).node = (markAll hasDb s root keys).node) := by
   unfold markRoot
@@ -106,15 +112,19 @@ theorem markRoot_eq_markAll (hasDb : Bool) (s : Store) (root : WN) (keys : List 
       intro e; subst e; simp at hl
     cases root with
     | routing h ch w d tc =>
-      obtain ⟨h1, h2⟩ := mark_parallel_eq_sequential hasDb s h ch w d tc keys
+      obtain ⟨h1, h2⟩ := mark_parallel_eq_sequential hasDb s h ch w d tc keys hne
       exact ⟨h1, fun he => h2 he hk⟩
     | _ => simp [WN.isRouting] at hr
   · exact ⟨rfl, fun _ => rfl⟩
 
+theorem markRoot_of_not_routing {hasDb : Bool} {s : Store} {root : WN} (keys : List (List Nib))
+    (hr : root.isRouting = false) : markRoot hasDb s root keys = markAll hasDb s root keys := by
+  simp [markRoot, hr]
+
 /-- a successful marking: the strategy is irrelevant -/
 theorem markRoot_of_markAll {hasDb : Bool} {s : Store} {root : WN} {keys : List (List Nib)}
-    (he : (markAll hasDb s root keys).err = none) : markRoot hasDb s root keys = markAll hasDb s root keys := by
-  obtain ⟨h1, h2⟩ := markRoot_eq_markAll hasDb s root keys
+    (hne : ∀ k ∈ keys, k ≠ []) (he : (markAll hasDb s root keys).err = none) : markRoot hasDb s root keys = markAll hasDb s root keys := by
+  obtain ⟨h1, h2⟩ := markRoot_eq_markAll hasDb s root keys hne
   have e1 := h1
   have e2 := h2 he
   cases hm : markRoot hasDb s root keys with
@@ -160,10 +170,10 @@ def getPathSeq (t : WT) (keys : List (List Nib)) : WT × Res Bytes :=
       let c := collectNodes H m.node
       ({ t with root := c.1 }, .ok (Cbor.encTrie c.2))
 
-/-- the collection strategy of `GetPath` is irrelevant: the result (`Res`) is that of the sequential strategy in every
-case, and a successful call also leaves the same trie behind.  (After a failed call the two strategies may leave
-different export marks on the nodes visited before the failure; store, database flag and pending lists agree.) -/
-theorem getPath_strategy_irrelevant (t : WT) (keys : List (List Nib)) :
+/-- the collection strategy of `GetPath` is irrelevant for non-empty keys: the result (`Res`) is that of the sequential
+strategy in every case, and a successful call also leaves the same trie behind.  (After a failed call the two strategies
+may leave different export marks on the nodes visited before the failure; store, database flag and pending lists agree.) -/
+theorem getPath_strategy_irrelevant (t : WT) (keys : List (List Nib)) (hne : ∀ k ∈ keys, k ≠ []) :
     (getPath H t keys).2 = (getPathSeq H t keys).2 ∧
     (∀ data, (getPathSeq H t keys).2 = .ok data → getPath H t keys = getPathSeq H t keys) ∧
     (∀ n, { (getPath H t keys).1 with root := n } = { (getPathSeq H t keys).1 with root := n }) := by
@@ -176,15 +186,30 @@ theorem getPath_strategy_irrelevant (t : WT) (keys : List (List Nib)) :
   | err e => exact ⟨rfl, fun _ _ => rfl, fun _ => rfl⟩
   | ok root =>
     simp only
-    obtain ⟨h1, h2⟩ := markRoot_eq_markAll t.hasDb t.store root keys
+    obtain ⟨h1, h2⟩ := markRoot_eq_markAll t.hasDb t.store root keys hne
     cases hs : (markAll t.hasDb t.store root keys).err with
     | none =>
-      rw [markRoot_of_markAll hs, hs]
+      rw [markRoot_of_markAll hne hs, hs]
       exact ⟨rfl, fun _ _ => rfl, fun _ => rfl⟩
     | some e =>
       rw [hs] at h1
       rw [h1]
       cases e <;> exact ⟨rfl, fun _ hd => (by cases hd), fun _ => rfl⟩
+
+/-- below a root that is no branch `getPath` takes the sequential strategy, whatever the keys are -/
+theorem getPath_eq_getPathSeq_of_not_routing (t : WT) (keys : List (List Nib))
+    (hnr : ∀ root, (match t.root with
+        | .hashRef h _ => resolveHash t.hasDb t.store h
+        | n => Res.ok n) = .ok root → root.isRouting = false) :
+    getPath H t keys = getPathSeq H t keys := by
+  rw [getPath_eq_markRoot]
+  unfold getPathSeq
+  generalize (match t.root with
+    | .hashRef h _ => resolveHash t.hasDb t.store h
+    | n => Res.ok n) = r0 at hnr
+  cases r0 with
+  | err e => rfl
+  | ok root => simp only [markRoot_of_not_routing keys (hnr root rfl)]
 
 end
 
